@@ -482,7 +482,9 @@ class TimeTriggeredPlanValidator(engines.engine.Engine, mixins.PlanValidatorMixi
             if inside_indexes_condition:
                 inside_indexes.append(x)
 
-        if not open_interval:
+        if not open_interval or (equal_time == before_time and start != end):
+            # also for a left-open interval when nothing happens at `start`: the state
+            # before `start` is then the one in force right after it
             yield before_time, trace[before_time]
         if equal_time != before_time and equal_time != end:
             yield equal_time, trace[equal_time]
